@@ -8,7 +8,7 @@ import dill
 
 from harness import shim  # noqa: F401
 from syne_tune.backend.trial_status import Trial
-from syne_tune.config_space import choice, finrange, ordinal, randint
+from syne_tune.config_space import choice, finrange, lograndint, ordinal, randint, uniform
 
 METRIC, RES, MAXRES = "m", "epoch", "epochs"
 
@@ -20,13 +20,16 @@ SPACES = {
     "s4": [("a", "int", 0, 5, 0), ("b", "fin", 0, 0, 4), ("c", "cat", 0, 0, 1)],
     "s5": [("a", "cat", 0, 0, 3), ("b", "ord", 0, 0, 4)],
     "s6": [("a", "int", 1, 2, 0), ("b", "int", 3, 5, 0)],
+    "s7": [("a", "logint", 1, 4, 0), ("b", "cat", 0, 0, 2)],
+    "s8": [("a", "logint", 2, 9, 0), ("b", "int", 0, 1, 0)],
+    "sc": [("a", "cont", 0, 0, 1), ("b", "cont", 0, 0, 1)],     # uniform(0, 1) x uniform(0, 1)
 }
 CAT = ["red", "green", "blue", "pink"]
 ORD = [10, 20, 40, 80, 160]
 
 
 def domain_values(kind, l, u, n):
-    if kind == "int":
+    if kind in ("int", "logint"):
         return list(range(l, u + 1))
     if kind == "cat":
         return CAT[:n]
@@ -42,6 +45,10 @@ def make_space(name, with_const=True, maxres: Optional[int] = None):
     for (hp, kind, l, u, n) in SPACES[name]:
         if kind == "int":
             cs[hp] = randint(l, u)
+        elif kind == "logint":
+            cs[hp] = lograndint(l, u)
+        elif kind == "cont":
+            cs[hp] = uniform(0.0, 1.0)
         elif kind == "cat":
             cs[hp] = choice(CAT[:n])
         elif kind == "ord":
@@ -76,8 +83,13 @@ def project(name, cs, config) -> dict:
     """config -> event fields: indices + the bits the specification asks for."""
     idx, types = [], True
     for (hp, kind, l, u, n) in SPACES[name]:
-        vals = domain_values(kind, l, u, n)
         v = config.get(hp)
+        if kind == "cont":
+            ok = isinstance(v, float) and 0.0 <= v <= 1.0
+            types = types and isinstance(v, float)
+            idx.append(0 if ok else -1)
+            continue
+        vals = domain_values(kind, l, u, n)
         want = cs[hp].value_type
         if v is None or not isinstance(v, want) or isinstance(v, bool):
             types = types and (v is not None and type(v).__name__ == want.__name__)
@@ -105,7 +117,16 @@ def make_scheduler(kind: str, name: str, p2e, seed: int, mode="min"):
         so = {"debug_log": False}
         if kind == "fifo_bayesopt":
             so["num_init_random"] = 3
+        if kind == "fifo_random_dup":
+            so["allow_duplicates"] = True      # the exclusion list then only holds the configurations of failed trials
+            return cs, FIFOScheduler(cs, searcher="random", search_options=so, **common)
         return cs, FIFOScheduler(cs, searcher=kind[5:], search_options=so, **common)
+    if kind == "hbdeep_bayesopt":
+        # deeper multi-fidelity GP set-up (rung levels 1, 3; max 9) so that the searcher's target resource changes
+        cs = make_space(name, maxres=9)
+        return cs, HyperbandScheduler(cs, searcher="bayesopt", search_options={"debug_log": False, "num_init_random": 2},
+                                      resource_attr=RES, max_resource_attr=MAXRES, grace_period=1, reduction_factor=3,
+                                      type="stopping", **common)
     if kind.startswith("hb_"):
         cs = make_space(name, maxres=3)
         so = {"debug_log": False}
@@ -137,7 +158,7 @@ def make_scheduler(kind: str, name: str, p2e, seed: int, mode="min"):
     raise ValueError(kind)
 
 
-NOREPEAT = {"fifo_random": True, "fifo_grid": True, "fifo_bayesopt": True, "hb_random": True, "hb_random_promo": True,
+NOREPEAT = {"hbdeep_bayesopt": True, "fifo_random_dup": False, "fifo_random": True, "fifo_grid": True, "fifo_bayesopt": True, "hb_random": True, "hb_random_promo": True,
             "hb_bayesopt": True, "hb_hypertune": True, "synchb": True, "dehb": False, "pbt": False, "regevo": False}
 
 
@@ -189,6 +210,8 @@ class Episode:
         self.level[t] = 0
         self.state[t] = "running"
         self.limit[t] = int(s.config.get(MAXRES, 3)) if isinstance(s.config.get(MAXRES, 3), int) else 3
+        if self.kind == "hbdeep_bayesopt":
+            self.limit[t] = 9
         e = {"a": "Suggest", "t": t}
         e.update(project(self.name, self.cs, s.config))
         self.ev.append(e)
@@ -268,5 +291,9 @@ class Episode:
 
     def trace(self, tid):
         p2e = [[-1] * len(SPACES[self.name])] if self.p2e_idx is None else [list(p) for p in self.p2e_idx]
-        conf = {"doms": doms_of(self.name), "p2e": p2e, "norepeat": NOREPEAT[self.kind], "finite": True}
+        # grid search on a log-scaled integer enumerates its own grid, which need not contain every integer
+        grid_sub = self.kind == "fifo_grid" and any(k == "logint" for (_, k, _, _, _) in SPACES[self.name])
+        cont = any(k == "cont" for (_, k, _, _, _) in SPACES[self.name])
+        conf = {"doms": doms_of(self.name), "p2e": p2e, "norepeat": NOREPEAT[self.kind] and not cont,
+                "finite": not grid_sub and not cont}
         return {"id": tid, "conf": conf, "ev": self.ev}
